@@ -154,9 +154,12 @@ def run(cx):
             good = clicks_fw == rising and all(p_ == 1 for p_ in per_pass) and cached == list(sig[1:])
             if good and sig[0] == 0:
                 # host: one is_pressed() per sample, provider-driven
-                it_sig = iter(sig)
+                hreads = []
                 clicks = []
-                prov = lambda _it=it_sig: bool(next(_it))
+
+                def prov(_s=sig, _r=hreads):
+                    _r.append(1)
+                    return bool(_s[min(len(_r) - 1, len(_s) - 1)])
                 prov._dl_lambda = True
                 cb_ = lambda _c=clicks: _c.append(1)
                 cb_._dl_lambda = True
@@ -167,11 +170,14 @@ def run(cx):
                     if out.kind != "return":
                         raise AnalysisError(f"host Button.is_pressed raises {out.value}")
                     vals.append(out.value)
-                good = len(clicks) == rising and vals == list(sig)
+                good = len(clicks) == rising and vals == list(sig) and len(hreads) == len(sig)
                 if not good:
                     n_bad += 1
                     if n_bad <= 3:
-                        r.fail("Button/host-clicks=firmware-clicks", (hb, hb.func("Button.is_pressed")), f"signal {sig}: host counts {len(clicks)} click(s) and returns {vals}; the firmware (and the signal) have {rising} rising edge(s)", detail={"signal": sig})
+                        r.fail("Button/host-clicks=firmware-clicks", (hb, hb.func("Button.is_pressed")), f"signal {sig}: host counts {len(clicks)} click(s) and returns {vals}, sampling the line {len(hreads)} time(s) in {len(sig)} polls; the firmware samples once per pass and sees {rising} rising edge(s)", detail={"signal": sig})
+                    else:
+                        r.stat.obligations += 1
+                        r.stat.failed += 1
                     continue
             if good:
                 r.ok(None)
@@ -179,6 +185,9 @@ def run(cx):
                 n_bad += 1
                 if n_bad <= 3:
                     r.fail("ButtonPoll/one-click-per-rising-edge", (em, em.func("_emit_block")), f"signal {sig} (first sample in setup()): firmware calls the handler {clicks_fw} time(s) for {rising} rising edge(s), reads per pass {per_pass}, cached samples {cached}", detail={"signal": sig})
+                else:
+                    r.stat.obligations += 1
+                    r.stat.failed += 1
 
     # ---- C15-ULTRA ---------------------------------------------------------------------------
     r = cx.rule("C15-ULTRA", "the ultrasonic helper retries at most 3 times, waits out the 60 ms minimum interval (only once the clock is running) before triggering, stamps the trigger time after the echo, converts with 0.0343/2 and falls back to the last good reading, else 400", floor=12)
